@@ -38,7 +38,7 @@ pub fn hist_cfg(id: &str, thorough: bool) -> Option<HistCfg> {
         "C01" => HistCfg {
             id: "C01",
             on: vec!["C01"],
-            mix: Mix { rich: false, ..base },
+            mix: Mix { rich: true, ..base },
             max_len: len(60, 140),
             n_min: 2,
             n_max: if thorough { 4 } else { 3 },
@@ -53,7 +53,7 @@ pub fn hist_cfg(id: &str, thorough: bool) -> Option<HistCfg> {
         "C03" => HistCfg {
             id: "C03",
             on: vec!["C03"],
-            mix: Mix { update: 12, commit: 6, resolve: 3, snapshot: 2, meldrefresh: 4, timetravel: 0, rich: true, rich_info: true, ..base },
+            mix: Mix { update: 12, commit: 6, resolve: 3, snapshot: 2, meldrefresh: 4, timetravel: 0, faultycommit: 2, rich: true, rich_info: true, ..base },
             max_len: len(40, 100),
             n_min: 1,
             n_max: 3,
@@ -62,7 +62,7 @@ pub fn hist_cfg(id: &str, thorough: bool) -> Option<HistCfg> {
                 c(k, "c03_commits_checked") > 0
                     && (c(k, "c03_commits_with_chain_ge2") > 0 || c(k, "c03_commits_with_tricky_strings") > 0 || c(k, "c03_commits_with_exponent_floats") > 0)
             },
-            rule: "history with rich JSON contents; every successful commit is followed by opening a fresh replica on the same storage and comparing the full observation; non-trivial = a checked commit whose stage held >=2 revisions of one object, or strings with braces/quotes/backslashes, or floats in exponent form",
+            rule: "history with rich JSON contents (and occasional commits during which one storage write fails, later retried); every successful commit is followed by opening a fresh replica on the same storage and comparing the full observation; non-trivial = a checked commit whose stage held >=2 revisions of one object, or strings with braces/quotes/backslashes, or floats in exponent form",
         },
         "C04" => HistCfg {
             id: "C04",
